@@ -1,15 +1,17 @@
-//! C16 correspondence: the three phases of a mutation (read on a reader connection, validate/sign
-//! in the authorisation state, write on the writer connection) are driven one by one, in every
-//! order the pipeline allows, against a real database file; the final rows and references are
-//! compared with the Gallina model (coq/model/Pipeline.v) and with the states the serial orders
-//! really produce.
+//! C16 correspondence: the three phases of a mutation / deletion (read on a reader connection,
+//! validate/sign in the authorisation state, write on the writer connection) are driven one by one,
+//! in every order the pipeline allows, against a real database file; the final rows and references
+//! are compared with the Gallina model (coq/model/Pipeline.v); strictly sequential orders are also
+//! run through the real service.
 use discret::verif_hooks::configuration::Configuration;
 use discret::verif_hooks::database::authorisation_service::RoomAuthorisations;
+use discret::verif_hooks::database::deletion::DeletionQuery;
 use discret::verif_hooks::database::graph_database::GraphDatabaseService;
 use discret::verif_hooks::database::mutation_query::MutationQuery;
 use discret::verif_hooks::database::node::Node;
 use discret::verif_hooks::database::query_language::data_model_parser::DataModel;
-use discret::verif_hooks::database::query_language::mutation_parser::MutationParser;
+use discret::verif_hooks::database::query_language::deletion_parser::DeletionParser;
+use discret::verif_hooks::database::query_language::mutation_parser::{MutationFieldValue, MutationParser};
 use discret::verif_hooks::database::room::{Authorisation, EntityRight, Room, User};
 use discret::verif_hooks::database::sqlite_database::{create_connection, Writeable};
 use discret::verif_hooks::database::system_entities::SYSTEM_DATA_MODEL;
@@ -29,7 +31,7 @@ const BASE: i64 = 1_700_000_000_000;
 const NF: usize = 4; // scalar fields f0..f3 (f3 is a String "s<int>")
 /// model defaults: f0 nullable (absent), f1/f2 Integer with default, f3 String with default "s30"
 const DEFAULTS: [Option<i64>; NF] = [None, Some(70), Some(90), Some(30)];
-const NTAGS: u64 = 3; // referenced rows t0..t2
+const NTAGS: u64 = 3; // referenced rows t0..t2 (they take the rowids 1..3)
 const MODEL: &str = r#"ns {
     Row { f0: Integer nullable, f1: Integer default 70, f2: Integer default 90, f3: String default "s30",
           tags: [ns.Tag] nullable, owner: ns.Tag nullable, more: [ns.Tag] nullable }
@@ -37,20 +39,28 @@ const MODEL: &str = r#"ns {
 }"#;
 const LABELS: [&str; 3] = ["tags", "owner", "more"]; // model labels 0 (array), 1 (single), 2 (array)
 const UNKNOWN_ROW: u64 = 9;
+/// rooms of the authorisation state: 1 = the caller may write for ever, 2 = the caller's right is
+/// revoked from (relative) date 1500 on, 3 = exists but the caller is not a member, others unknown
+const FOREVER: i64 = 1_000_000_000;
+const REVOKED_FROM: i64 = 1500;
 
 #[derive(Clone, Debug, PartialEq)]
 enum RefOp { Add(u64, Vec<u64>), Set(u64, u64), Clear(u64) }
 #[derive(Clone, Debug)]
 struct RowInit { room: Option<u64>, fields: Vec<Option<i64>>, edges: Vec<(u64, u64)> } // (label, tag)
+#[derive(Clone, Copy, Debug, PartialEq)]
+enum Kind { Update, Create, Delete }
 #[derive(Clone, Debug)]
-struct Mut { row: u64, room: Option<u64>, assign: Vec<(u64, i64)>, refs: Vec<RefOp> }
+struct Mut { kind: Kind, row: u64, room: Option<u64>, assign: Vec<(u64, i64)>, refs: Vec<RefOp> }
 #[derive(Clone, Debug)]
 struct Scen { rows: Vec<RowInit>, muts: Vec<Mut> }
 #[derive(Clone, Copy, Debug, PartialEq)]
 enum Ev { R(usize), V(usize), W(usize) }
+type Ids = Vec<(u64, [u8; 16])>; // model row index -> uid
 
 fn mdate_of(i: usize) -> i64 { 1000 * (i as i64 + 1) }
 fn lit(f: u64, v: i64) -> String { if f == 3 { format!("\"s{}\"", v) } else { format!("{}", v) } }
+fn id_of(ids: &Ids, row: u64) -> [u8; 16] { ids.iter().find(|p| p.0 == row).map(|p| p.1).unwrap_or(uid_of(999)) }
 
 // ---------------------------------------------------------------- Gallina printing
 fn refop_coq(r: &RefOp) -> String {
@@ -60,23 +70,29 @@ fn refop_coq(r: &RefOp) -> String {
         RefOp::Clear(l) => format!("RClear {}", gn(*l)),
     }
 }
+fn rights_coq() -> String { format!("[(1%N, {}); (2%N, {})]", FOREVER, REVOKED_FROM) }
 fn scen_db_coq(s: &Scen) -> String {
     let mut rows = vec![];
     let mut edges = vec![];
     for (k, r) in s.rows.iter().enumerate() {
         let id = k as u64 + 1;
         let fs: Vec<String> = r.fields.iter().enumerate().filter_map(|(f, v)| v.or(DEFAULTS[f]).map(|v| format!("({}, {})", gn(f as u64), gz(v)))).collect();
-        rows.push(format!("{{| r_id := {}; r_room := {}; r_mdate := 0; r_fields := {} |}}", gn(id), gon(r.room), glist(&fs)));
+        rows.push(format!("{{| r_id := {}; r_rowid := {}; r_room := {}; r_mdate := 0; r_fields := {} |}}", gn(id), gn(NTAGS + id), gon(r.room), glist(&fs)));
         for (l, t) in &r.edges {
             edges.push(format!("{{| e_src := {}; e_label := {}; e_dest := {}; e_cdate := 0 |}}", gn(id), gn(*l), gn(*t)));
         }
     }
-    format!("{{| rows := {}; edges := {} |}}", glist(&rows), glist(&edges))
+    format!("{{| rows := {}; edges := {}; db_floor := {} |}}", glist(&rows), glist(&edges), gn(NTAGS))
 }
 fn muts_coq(s: &Scen) -> String {
     glist(&s.muts.iter().enumerate().map(|(i, m)| {
-        let a: Vec<String> = m.assign.iter().map(|(f, v)| format!("({}, {})", gn(*f), gz(*v))).collect();
-        format!("{{| m_row := {}; m_date := {}; m_room := {}; m_assign := {}; m_refs := {} |}}",
+        let mut a: Vec<String> = m.assign.iter().map(|(f, v)| format!("({}, {})", gn(*f), gz(*v))).collect();
+        if m.kind == Kind::Create {
+            // the parser fills in the defaults of the fields a creation does not give
+            for f in 0..NF { if let Some(d) = DEFAULTS[f] { if !m.assign.iter().any(|p| p.0 == f as u64) { a.push(format!("({}, {})", gn(f as u64), gz(d))); } } }
+        }
+        format!("{{| m_kind := {}; m_row := {}; m_date := {}; m_room := {}; m_assign := {}; m_refs := {} |}}",
+            match m.kind { Kind::Update => "KUpdate", Kind::Create => "KCreate", Kind::Delete => "KDelete" },
             gn(m.row), gz(mdate_of(i)), gon(m.room), glist(&a), glist(&m.refs.iter().map(refop_coq).collect::<Vec<_>>()))
     }).collect::<Vec<_>>())
 }
@@ -87,27 +103,88 @@ fn sigma_txt(sg: &[Ev]) -> String {
     sg.iter().map(|e| match e { Ev::R(i) => format!("R{}", i + 1), Ev::V(i) => format!("V{}", i + 1), Ev::W(i) => format!("W{}", i + 1) }).collect::<Vec<_>>().join(" ")
 }
 
+// ---------------------------------------------------------------- request texts
+fn creation_text(room: Option<u64>, fields: &[(u64, i64)], edges: &[(u64, u64)], tags: &[[u8; 16]]) -> (String, Parameters) {
+    let mut params = Parameters::default();
+    let mut body = String::new();
+    if let Some(room) = room {
+        params.add("room", base64_encode(&uid_of(room))).unwrap();
+        body.push_str(" room_id:$room");
+    }
+    for (f, v) in fields { body.push_str(&format!(" f{}:{}", f, lit(*f, *v))); }
+    for (l, name) in LABELS.iter().enumerate() {
+        let ts: Vec<u64> = edges.iter().filter(|e| e.0 == l as u64).map(|e| e.1).collect();
+        if ts.is_empty() { continue; }
+        let refs: Vec<String> = ts.iter().enumerate().map(|(j, t)| { let k = format!("t{}_{}", l, j); params.add(&k, base64_encode(&tags[*t as usize])).unwrap(); format!("{{id:${}}}", k) }).collect();
+        if l == 1 { body.push_str(&format!(" {}:{}", name, refs[0])); } else { body.push_str(&format!(" {}:[{}]", name, refs.join(","))); }
+    }
+    if body.is_empty() { body.push_str(" f0:null"); }
+    (format!("mutate {{ ns.Row {{{} }} }}", body), params)
+}
+fn init_text(r: &RowInit, tags: &[[u8; 16]]) -> (String, Parameters) {
+    let fs: Vec<(u64, i64)> = r.fields.iter().enumerate().filter_map(|(f, v)| v.map(|v| (f as u64, v))).collect();
+    creation_text(r.room, &fs, &r.edges, tags)
+}
+fn refs_text(m: &Mut, tags: &[[u8; 16]], params: &mut Parameters, body: &mut String) {
+    for (k, r) in m.refs.iter().enumerate() {
+        match r {
+            RefOp::Add(l, ds) => {
+                let refs: Vec<String> = ds.iter().enumerate().map(|(j, t)| { let key = format!("a{}_{}", k, j); params.add(&key, base64_encode(&tags[*t as usize])).unwrap(); format!("{{id:${}}}", key) }).collect();
+                body.push_str(&format!(" {}:[{}]", LABELS[*l as usize], refs.join(",")));
+            }
+            RefOp::Set(l, t) => {
+                let key = format!("s{}", k);
+                params.add(&key, base64_encode(&tags[*t as usize])).unwrap();
+                body.push_str(&format!(" {}:{{id:${}}}", LABELS[*l as usize], key));
+            }
+            RefOp::Clear(l) => body.push_str(&format!(" {}:null", LABELS[*l as usize])),
+        }
+    }
+}
+/// text + parameters of a mutation (Update / Create) or a deletion
+fn request_text(m: &Mut, ids: &Ids, tags: &[[u8; 16]]) -> (String, Parameters) {
+    let mut params = Parameters::default();
+    match m.kind {
+        Kind::Delete => {
+            params.add("id", base64_encode(&id_of(ids, m.row))).unwrap();
+            ("delete { ns.Row { $id } }".to_string(), params)
+        }
+        Kind::Update | Kind::Create => {
+            let mut body = String::new();
+            if m.kind == Kind::Update { params.add("id", base64_encode(&id_of(ids, m.row))).unwrap(); body.push_str(" id:$id"); }
+            if let Some(room) = m.room { params.add("room", base64_encode(&uid_of(room))).unwrap(); body.push_str(" room_id:$room"); }
+            for (f, v) in &m.assign { body.push_str(&format!(" f{}:{}", f, lit(*f, *v))); }
+            refs_text(m, tags, &mut params, &mut body);
+            if body.is_empty() { body.push_str(" f0:null"); }
+            (format!("mutate {{ ns.Row {{{} }} }}", body), params)
+        }
+    }
+}
+
 // ---------------------------------------------------------------- the real database
+enum Pending { Mutation(MutationQuery), Deletion(DeletionQuery) }
 struct Env {
     rconn: Connection,
     wconn: Connection,
     dm: DataModel,
     parsers: HashMap<String, Arc<MutationParser>>,
+    del_parsers: HashMap<String, Arc<DeletionParser>>,
     ra: RoomAuthorisations,
     shorts: Shorts,
     // of the current run
     tags: Vec<[u8; 16]>,
-    rows: Vec<[u8; 16]>,
+    ids: Ids,
     in_txn: bool,
     stats: HashMap<&'static str, u64>,
 }
 
-fn full_room(id: u64, vk: &[u8]) -> Room {
+fn room_with(id: u64, vk: Option<&[u8]>, revoked_from: Option<i64>) -> Room {
     let mut room = Room { id: uid_of(id), ..Default::default() };
     room.add_auth(Authorisation { id: uid_of(100 + id), ..Default::default() }).unwrap();
     let a = room.get_auth_mut(&uid_of(100 + id)).unwrap();
-    a.add_user(User { verifying_key: vk.to_vec(), date: 0, enabled: true }).unwrap();
+    if let Some(vk) = vk { a.add_user(User { verifying_key: vk.to_vec(), date: 0, enabled: true }).unwrap(); }
     a.add_right(EntityRight::new(0, "*".to_string(), true, true)).unwrap();
+    if let Some(d) = revoked_from { a.add_right(EntityRight::new(BASE + d, "*".to_string(), false, false)).unwrap(); }
     room
 }
 
@@ -130,10 +207,12 @@ impl Env {
         let sk = Ed25519SigningKey::create_from(&[7u8; 32]);
         let vk = sk.export_verifying_key();
         let mut rooms = HashMap::new();
-        for r in 1..=2u64 { rooms.insert(uid_of(r), full_room(r, &vk)); }
+        rooms.insert(uid_of(1), room_with(1, Some(&vk), None));
+        rooms.insert(uid_of(2), room_with(2, Some(&vk), Some(REVOKED_FROM)));
+        rooms.insert(uid_of(3), room_with(3, None, None));
         let ra = RoomAuthorisations { signing_key: sk, rooms, max_node_size: 256 * 1024 };
-        Env { rconn, wconn, dm, parsers: HashMap::new(), ra, shorts,
-              tags: vec![], rows: vec![], in_txn: false, stats: HashMap::new() }
+        Env { rconn, wconn, dm, parsers: HashMap::new(), del_parsers: HashMap::new(), ra, shorts,
+              tags: vec![], ids: vec![], in_txn: false, stats: HashMap::new() }
     }
     fn bump(&mut self, k: &'static str) { *self.stats.entry(k).or_insert(0) += 1; }
 
@@ -142,6 +221,12 @@ impl Env {
         // as GraphDatabase::get_cached_mutation
         let p = Arc::new(MutationParser::parse(text, &self.dm).unwrap_or_else(|e| panic!("parse {}: {:?}", text, e)));
         self.parsers.insert(text.to_string(), p.clone());
+        p
+    }
+    fn del_parser(&mut self, text: &str) -> Arc<DeletionParser> {
+        if let Some(p) = self.del_parsers.get(text) { return p.clone(); }
+        let p = Arc::new(DeletionParser::parse(text, &self.dm).unwrap_or_else(|e| panic!("parse {}: {:?}", text, e)));
+        self.del_parsers.insert(text.to_string(), p.clone());
         p
     }
     fn begin(&mut self) { if !self.in_txn { self.wconn.execute("BEGIN TRANSACTION", []).unwrap(); self.in_txn = true; } }
@@ -168,25 +253,27 @@ impl Env {
         self.commit();
         verif_clock::set(BASE);
         self.tags.clear();
-        self.rows.clear();
+        self.ids.clear();
         for t in 0..NTAGS {
             let mq = self.mutate_now(&format!("mutate {{ ns.Tag {{ n: {} }} }}", t), Parameters::default());
             self.tags.push(mq.mutate_entities[0].node_to_mutate.id);
         }
-        for r in &s.rows {
-            let (text, params) = creation_text(r, &self.tags);
+        for (k, r) in s.rows.iter().enumerate() {
+            let (text, params) = init_text(r, &self.tags);
             let mq = self.mutate_now(&text, params);
-            self.rows.push(mq.mutate_entities[0].node_to_mutate.id);
+            let n = &mq.mutate_entities[0].node_to_mutate;
+            // the model is told these rowids
+            assert_eq!(n.node.as_ref().unwrap()._local_id, Some((NTAGS + k as u64 + 1) as i64), "rowid of an initial row");
+            self.ids.push((k as u64 + 1, n.id));
         }
     }
 
-    fn mutation_text(&self, m: &Mut) -> (String, Parameters) { mutation_text(m, &self.rows, &self.tags) }
     /// runs one schedule against the real phases; returns acknowledgements ++ final state
     fn exec(&mut self, s: &Scen, sigma: &[Ev], batch: bool) -> Vec<i64> {
         self.reset(s);
         let n = s.muts.len();
-        let mut pend: Vec<Option<MutationQuery>> = (0..n).map(|_| None).collect();
-        let mut failed = vec![false; n];
+        let mut pend: Vec<Option<Pending>> = (0..n).map(|_| None).collect();
+        let mut dropped = vec![false; n];
         let mut acks = vec![0i64; n];
         for e in sigma {
             match *e {
@@ -194,26 +281,48 @@ impl Env {
                     // a reader connection only sees committed batches
                     self.commit();
                     verif_clock::set(BASE + mdate_of(i));
-                    let (text, mut params) = self.mutation_text(&s.muts[i]);
-                    let p = self.parser(&text);
-                    match MutationQuery::execute(&mut params, p, &self.rconn) {
-                        Ok(mq) => pend[i] = Some(mq),
-                        Err(DbError::UnknownEntity(_, _)) => failed[i] = true,
-                        Err(e) => panic!("read phase: {:?}", e),
+                    let m = &s.muts[i];
+                    let (text, mut params) = request_text(m, &self.ids, &self.tags);
+                    if m.kind == Kind::Delete {
+                        let p = self.del_parser(&text);
+                        match DeletionQuery::build(&mut params, p, &self.rconn) {
+                            Ok(dq) => pend[i] = Some(Pending::Deletion(dq)),
+                            Err(e) => panic!("read phase of a deletion: {:?}", e),
+                        }
+                    } else {
+                        let p = self.parser(&text);
+                        match MutationQuery::execute(&mut params, p, &self.rconn) {
+                            Ok(mq) => {
+                                // the id of a new row is drawn by the reader
+                                if m.kind == Kind::Create { self.ids.push((m.row, mq.mutate_entities[0].node_to_mutate.id)); }
+                                pend[i] = Some(Pending::Mutation(mq));
+                            }
+                            Err(DbError::UnknownEntity(_, _)) => dropped[i] = true,
+                            Err(e) => panic!("read phase: {:?}", e),
+                        }
                     }
                 }
                 Ev::V(i) => {
-                    if failed[i] { continue; }
+                    if dropped[i] { continue; }
                     verif_clock::set(BASE + 500_000);
-                    let mq = pend[i].as_mut().expect("V before R");
-                    let rooms = self.ra.validate_mutation(mq).expect("validation");
-                    assert!(rooms.is_empty());
+                    let verdict = match pend[i].as_mut().expect("V before R") {
+                        Pending::Mutation(mq) => self.ra.validate_mutation(mq).map(|rooms| assert!(rooms.is_empty())),
+                        Pending::Deletion(dq) => self.ra.validate_deletion(dq),
+                    };
+                    match verdict {
+                        Ok(()) => {}
+                        Err(DbError::AuthorisationRejected(_, _)) | Err(DbError::UnknownRoom(_)) => { dropped[i] = true; acks[i] = 2; pend[i] = None; }
+                        Err(e) => panic!("validation: {:?}", e),
+                    }
                 }
                 Ev::W(i) => {
-                    if failed[i] { continue; }
-                    let mut mq = pend[i].take().expect("W before R");
+                    if dropped[i] { continue; }
+                    let p = pend[i].take().expect("W before R");
                     self.begin();
-                    mq.write(&self.wconn).expect("write phase");
+                    match p {
+                        Pending::Mutation(mut mq) => mq.write(&self.wconn).expect("write phase"),
+                        Pending::Deletion(mut dq) => dq.delete(&self.wconn).expect("write phase of a deletion"),
+                    }
                     if !batch { self.commit(); }
                     acks[i] = 1;
                 }
@@ -222,15 +331,11 @@ impl Env {
         self.commit();
         verif_clock::clear();
         let mut out = acks;
-        out.extend(self.dump(s));
-        out
-    }
-
-    fn dump(&mut self, s: &Scen) -> Vec<i64> {
         let nrows: i64 = self.rconn.query_row("SELECT count(*) FROM _node WHERE _entity = ?", [&self.shorts.row], |r| r.get(0)).unwrap();
-        assert_eq!(nrows as usize, s.rows.len(), "row count changed");
-        let (out, bad_sig) = dump_conn(&self.rconn, &self.shorts, &self.rows, &self.tags);
+        let (state, found, bad_sig) = dump_conn(&self.rconn, &self.shorts, &self.ids, &self.tags);
         for _ in 0..bad_sig { self.bump("final_row_signature_invalid"); }
+        out.extend(state);
+        if nrows as usize != found { out.push(-77); } // a row nobody created
         out
     }
 }
@@ -245,15 +350,20 @@ impl Shorts {
                  labels: LABELS.iter().map(|l| row.get_field(l).unwrap().short_name.clone()).collect() }
     }
 }
-/// final rows (id, room, mdate, fields) in scenario order, then the references of these rows sorted
-fn dump_conn(conn: &Connection, sh: &Shorts, rows: &[[u8; 16]], tags: &[[u8; 16]]) -> (Vec<i64>, u64) {
+/// the rows that exist (id, room, mdate, fields) by model index, then the references that start
+/// from a known row, sorted; also: number of rows found, number of invalid signatures
+fn dump_conn(conn: &Connection, sh: &Shorts, ids: &Ids, tags: &[[u8; 16]]) -> (Vec<i64>, usize, u64) {
     let mut out = vec![];
     let mut bad_sig = 0;
-    for k in 0..rows.len() {
-        let node = Node::get_with_entity(&rows[k], &sh.row, conn).unwrap().expect("row vanished");
+    let mut found = 0;
+    let mut sorted = ids.clone();
+    sorted.sort();
+    for (idx, uid) in &sorted {
+        let Some(node) = Node::get_with_entity(uid, &sh.row, conn).unwrap() else { continue };
+        found += 1;
         if node.verify().is_err() { bad_sig += 1; out.push(-99); }
-        out.push(k as i64 + 1);
-        out.push(match node.room_id { Some(r) => if r == uid_of(1) { 1 } else if r == uid_of(2) { 2 } else { -7 }, None => -1 });
+        out.push(*idx as i64);
+        out.push(match node.room_id { Some(r) => (1..=4).find(|k| r == uid_of(*k)).map(|k| k as i64).unwrap_or(-7), None => -1 });
         out.push(node.mdate - BASE);
         let v: serde_json::Value = serde_json::from_str(node._json.as_deref().unwrap_or("{}")).unwrap();
         for f in 0..NF {
@@ -266,58 +376,17 @@ fn dump_conn(conn: &Connection, sh: &Shorts, rows: &[[u8; 16]], tags: &[[u8; 16]
     }
     let mut es: Vec<(i64, i64, i64, i64)> = vec![];
     let mut st = conn.prepare("SELECT src, label, dest, cdate FROM _edge").unwrap();
-    let found = st.query_map([], |r| Ok((r.get::<_, Vec<u8>>(0)?, r.get::<_, String>(1)?, r.get::<_, Vec<u8>>(2)?, r.get::<_, i64>(3)?))).unwrap();
-    for r in found {
+    let rows = st.query_map([], |r| Ok((r.get::<_, Vec<u8>>(0)?, r.get::<_, String>(1)?, r.get::<_, Vec<u8>>(2)?, r.get::<_, i64>(3)?))).unwrap();
+    for r in rows {
         let (src, label, dest, cdate) = r.unwrap();
-        let Some(ri) = rows.iter().position(|t| t[..] == src[..]) else { continue };
+        let Some(ri) = ids.iter().find(|p| p.1[..] == src[..]).map(|p| p.0) else { continue };
         let l = sh.labels.iter().position(|x| *x == label).map(|p| p as i64).unwrap_or(-7);
         let t = tags.iter().position(|t| t[..] == dest[..]).map(|p| p as i64).unwrap_or(-7);
-        es.push((ri as i64 + 1, l, t, cdate - BASE));
+        es.push((ri as i64, l, t, cdate - BASE));
     }
     es.sort();
     for e in es { out.extend([e.0, e.1, e.2, e.3]); }
-    (out, bad_sig)
-}
-
-fn creation_text(r: &RowInit, tags: &[[u8; 16]]) -> (String, Parameters) {
-    let mut params = Parameters::default();
-    let mut body = String::new();
-    if let Some(room) = r.room {
-        params.add("room", base64_encode(&uid_of(room))).unwrap();
-        body.push_str(" room_id:$room");
-    }
-    for (f, v) in r.fields.iter().enumerate() { if let Some(v) = v { body.push_str(&format!(" f{}:{}", f, lit(f as u64, *v))); } }
-    for (l, name) in LABELS.iter().enumerate() {
-        let ts: Vec<u64> = r.edges.iter().filter(|e| e.0 == l as u64).map(|e| e.1).collect();
-        if ts.is_empty() { continue; }
-        let refs: Vec<String> = ts.iter().map(|t| { let k = format!("t{}_{}", l, t); params.add(&k, base64_encode(&tags[*t as usize])).unwrap(); format!("{{id:${}}}", k) }).collect();
-        if l == 1 { body.push_str(&format!(" {}:{}", name, refs[0])); } else { body.push_str(&format!(" {}:[{}]", name, refs.join(","))); }
-    }
-    if body.is_empty() { body.push_str(" f0:null"); }
-    (format!("mutate {{ ns.Row {{{} }} }}", body), params)
-}
-fn mutation_text(m: &Mut, rows: &[[u8; 16]], tags: &[[u8; 16]]) -> (String, Parameters) {
-    let mut params = Parameters::default();
-    let id = if m.row == UNKNOWN_ROW { uid_of(999) } else { rows[m.row as usize - 1] };
-        params.add("id", base64_encode(&id)).unwrap();
-        let mut body = String::from(" id:$id");
-        if let Some(room) = m.room { params.add("room", base64_encode(&uid_of(room))).unwrap(); body.push_str(" room_id:$room"); }
-        for (f, v) in &m.assign { body.push_str(&format!(" f{}:{}", f, lit(*f, *v))); }
-        for (k, r) in m.refs.iter().enumerate() {
-            match r {
-                RefOp::Add(l, ds) => {
-                    let refs: Vec<String> = ds.iter().enumerate().map(|(j, t)| { let key = format!("a{}_{}", k, j); params.add(&key, base64_encode(&tags[*t as usize])).unwrap(); format!("{{id:${}}}", key) }).collect();
-                    body.push_str(&format!(" {}:[{}]", LABELS[*l as usize], refs.join(",")));
-                }
-                RefOp::Set(l, t) => {
-                    let key = format!("s{}", k);
-                    params.add(&key, base64_encode(&tags[*t as usize])).unwrap();
-                    body.push_str(&format!(" {}:{{id:${}}}", LABELS[*l as usize], key));
-                }
-                RefOp::Clear(l) => body.push_str(&format!(" {}:null", LABELS[*l as usize])),
-            }
-        }
-        (format!("mutate {{ ns.Row {{{} }} }}", body), params)
+    (out, found, bad_sig)
 }
 
 // ---------------------------------------------------------------- orders and schedules
@@ -410,10 +479,11 @@ fn join(chunks: &[Vec<i64>]) -> Vec<i64> {
     out
 }
 
-struct Runner { env: Env, svc: Svc, serial_cache: HashMap<String, Vec<Vec<i64>>>, n_serializable: u64, n_not: u64, n_overlap: u64, n_sequential: u64 }
+struct Runner { env: Env, svc: Svc, serial_cache: HashMap<String, Vec<Vec<i64>>>, n_serializable: u64, n_not: u64, n_overlap: u64,
+                n_sequential: u64, n_refused: u64, n_with_create_or_delete: u64 }
 impl Runner {
     fn case(&mut self, kind: &str, s: &Scen, sigma: &[Ev], batch: bool) -> Case { self.case_with(kind, s, sigma, batch, None) }
-    /// a strictly sequential run through the real service (every mutation awaited)
+    /// a strictly sequential run through the real service (every request awaited)
     fn case_service(&mut self, kind: &str, s: &Scen, pi: &[usize]) -> Case {
         let got = self.svc.exec(s, pi);
         self.case_with(kind, s, &serial_sched(pi), false, Some(got))
@@ -434,22 +504,28 @@ impl Runner {
         let ov = overlapping(s, sigma);
         if serialisable { self.n_serializable += 1 } else { self.n_not += 1 }
         if ov { self.n_overlap += 1 }
+        let refused = got[..s.muts.len()].iter().filter(|a| **a == 2).count();
+        if refused > 0 { self.n_refused += 1 }
+        if s.muts.iter().any(|m| m.kind != Kind::Update) { self.n_with_create_or_delete += 1 }
         let mut chunks = vec![got.clone()];
         chunks.extend(serial.iter().cloned());
         let distinct_serial = { let mut d = serial.clone(); d.sort(); d.dedup(); d.len() };
         Case { kind: kind.to_string(),
-               coq: format!("CSched {} {} {} {} {}", scen_db_coq(s), gn(NF as u64), muts_coq(s), sigma_coq(sigma), gb(batch)),
+               coq: format!("CSched {} {} {} {} {} {}", rights_coq(), scen_db_coq(s), gn(NF as u64), muts_coq(s), sigma_coq(sigma), gb(batch)),
                obs: join(&chunks),
                meta: json!({"schedule": sigma_txt(sigma), "mutations": s.muts.len(), "batched_writes": batch, "overlapping_windows": ov, "strictly_sequential": sequential, "through_the_real_service": via_service,
-                            "equals_a_serial_outcome": serialisable, "distinct_serial_outcomes": distinct_serial, "final": got}) }
+                            "refused_by_validation": refused, "equals_a_serial_outcome": serialisable, "distinct_serial_outcomes": distinct_serial, "final": got}) }
     }
 }
 
 // ---------------------------------------------------------------- scenarios
 // f2 keeps its default (90); f1 and f3 hold NON-default values before the schedule
 fn row1() -> RowInit { RowInit { room: Some(1), fields: vec![Some(1), Some(2), None, Some(12)], edges: vec![(0, 0), (1, 0)] } }
+fn row_in(room: Option<u64>) -> RowInit { RowInit { room, ..row1() } }
 fn row_free() -> RowInit { RowInit { room: None, fields: vec![Some(1), Some(2), Some(3), Some(12)], edges: vec![(0, 0), (1, 0)] } }
-fn m(row: u64, room: Option<u64>, assign: &[(u64, i64)], refs: &[RefOp]) -> Mut { Mut { row, room, assign: assign.to_vec(), refs: refs.to_vec() } }
+fn m(row: u64, room: Option<u64>, assign: &[(u64, i64)], refs: &[RefOp]) -> Mut { Mut { kind: Kind::Update, row, room, assign: assign.to_vec(), refs: refs.to_vec() } }
+fn mk(row: u64, room: Option<u64>, assign: &[(u64, i64)], refs: &[RefOp]) -> Mut { Mut { kind: Kind::Create, ..m(row, room, assign, refs) } }
+fn md(row: u64) -> Mut { Mut { kind: Kind::Delete, ..m(row, None, &[], &[]) } }
 
 fn directed() -> Vec<(&'static str, Scen)> {
     let two_rows = vec![row1(), RowInit { room: None, fields: vec![None, Some(5), Some(6), None], edges: vec![(2, 1)] }];
@@ -468,6 +544,20 @@ fn directed() -> Vec<(&'static str, Scen)> {
         ("add-target-referenced-by-other-field", Scen { rows: vec![RowInit { room: None, fields: vec![Some(1), None, None, None], edges: vec![(1, 1)] }],
             muts: vec![m(1, None, &[], &[RefOp::Set(1, 2)]), m(1, None, &[], &[RefOp::Add(2, vec![2])])] }),
         ("same-target-in-three-fields", Scen { rows: vec![row1()], muts: vec![m(1, None, &[], &[RefOp::Add(2, vec![0])]), m(1, None, &[], &[RefOp::Set(1, 1), RefOp::Add(0, vec![1]), RefOp::Add(2, vec![1])])] }),
+        // mutations REFUSED by the validation: they must leave no trace in any interleaving
+        ("refused-move-vs-field", Scen { rows: vec![row1()], muts: vec![m(1, Some(3), &[(0, 11)], &[RefOp::Set(1, 1)]), m(1, None, &[(1, 22)], &[])] }),
+        ("refused-move-to-unknown-room-vs-reference", Scen { rows: vec![row1()], muts: vec![m(1, Some(4), &[(0, 11)], &[RefOp::Clear(0)]), m(1, None, &[], &[RefOp::Add(0, vec![1])])] }),
+        ("right-revoked-between-two-mutations", Scen { rows: vec![row_in(Some(2))], muts: vec![m(1, None, &[(0, 11)], &[]), m(1, None, &[(1, 22)], &[RefOp::Set(1, 2)])] }),
+        ("move-into-room-with-revoked-right-vs-field", Scen { rows: vec![row1()], muts: vec![m(1, Some(2), &[(0, 11)], &[]), m(1, None, &[(1, 22)], &[])] }),
+        ("leave-room-with-revoked-right", Scen { rows: vec![row_in(Some(2))], muts: vec![m(1, None, &[(0, 11)], &[]), m(1, Some(1), &[(1, 22)], &[])] }),
+        ("refused-deletion-vs-field", Scen { rows: vec![row_in(Some(2))], muts: vec![m(1, None, &[(0, 11)], &[]), md(1)] }),
+        // creation and deletion of a row racing with updates of it
+        ("create-then-update-new-row", Scen { rows: vec![row1()], muts: vec![mk(11, Some(1), &[(0, 5), (1, 6)], &[RefOp::Add(0, vec![1]), RefOp::Set(1, 2)]), m(11, None, &[(3, 41)], &[RefOp::Add(0, vec![2])])] }),
+        ("create-two-rows", Scen { rows: vec![], muts: vec![mk(11, None, &[(0, 5)], &[RefOp::Set(1, 0)]), mk(12, Some(1), &[], &[RefOp::Add(2, vec![0, 1])])] }),
+        ("delete-vs-update", Scen { rows: vec![row1()], muts: vec![md(1), m(1, None, &[(0, 11)], &[RefOp::Add(0, vec![1])])] }),
+        ("delete-vs-reference-only-update", Scen { rows: vec![row_free()], muts: vec![md(1), m(1, None, &[], &[RefOp::Add(2, vec![2])])] }),
+        ("delete-vs-delete", Scen { rows: two_rows.clone(), muts: vec![md(1), md(1)] }),
+        ("delete-other-row-vs-update", Scen { rows: two_rows.clone(), muts: vec![md(2), m(1, None, &[(0, 11)], &[RefOp::Set(1, 2)])] }),
         // corner cases
         ("same-field", Scen { rows: vec![row1()], muts: vec![m(1, None, &[(0, 11)], &[]), m(1, None, &[(0, 22)], &[])] }),
         ("reference-add-vs-replace", Scen { rows: vec![row1()], muts: vec![m(1, None, &[], &[RefOp::Add(0, vec![1])]), m(1, None, &[], &[RefOp::Clear(0)])] }),
@@ -475,19 +565,25 @@ fn directed() -> Vec<(&'static str, Scen)> {
         ("reference-add-vs-field", Scen { rows: vec![row1()], muts: vec![m(1, None, &[], &[RefOp::Add(2, vec![1, 1])]), m(1, None, &[(2, 33)], &[])] }),
         ("room-only-and-existing-reference", Scen { rows: vec![row1()], muts: vec![m(1, Some(2), &[], &[RefOp::Add(0, vec![0]), RefOp::Set(1, 0)]), m(1, None, &[(1, 22)], &[RefOp::Clear(2)])] }),
         ("room-move-vs-room-move", Scen { rows: vec![row1()], muts: vec![m(1, Some(2), &[(0, 11)], &[]), m(1, Some(1), &[(0, 12)], &[RefOp::Clear(1)])] }),
-        ("different-rows", Scen { rows: two_rows.clone(), muts: vec![m(1, None, &[(0, 11)], &[RefOp::Set(1, 2)]), m(2, Some(2), &[(0, 22)], &[RefOp::Add(0, vec![0])])] }),
+        ("different-rows", Scen { rows: two_rows.clone(), muts: vec![m(1, None, &[(0, 11)], &[RefOp::Set(1, 2)]), m(2, Some(1), &[(0, 22)], &[RefOp::Add(0, vec![0])])] }),
         ("unknown-row", Scen { rows: vec![row1()], muts: vec![m(UNKNOWN_ROW, None, &[(0, 11)], &[]), m(1, None, &[(1, 22)], &[])] }),
         ("no-room", Scen { rows: vec![RowInit { room: None, fields: vec![None, None, None, None], edges: vec![] }], muts: vec![m(1, None, &[(0, 11)], &[RefOp::Set(1, 1)]), m(1, None, &[(1, 22)], &[RefOp::Set(1, 1)])] }),
     ]
 }
 fn directed3() -> Vec<(&'static str, Scen)> {
-    let two_rows = vec![row1(), RowInit { room: Some(2), fields: vec![None, Some(5), Some(6), Some(8)], edges: vec![(2, 1)] }];
+    let two_rows = vec![row1(), RowInit { room: Some(1), fields: vec![None, Some(5), Some(6), Some(8)], edges: vec![(2, 1)] }];
     vec![
+        // the stale update of a deleted row lands on the rowid that a NEW row took over
+        ("3-update-delete-create-reuses-rowid", Scen { rows: vec![row1()], muts: vec![m(1, None, &[(0, 11)], &[RefOp::Add(0, vec![1])]), md(1), mk(11, Some(1), &[(0, 5)], &[RefOp::Set(1, 2)])] }),
         ("3-different-fields", Scen { rows: vec![row1()], muts: vec![m(1, None, &[(0, 11)], &[]), m(1, None, &[(1, 22)], &[]), m(1, None, &[(3, 33)], &[])] }),
         ("3-field-reference-room", Scen { rows: vec![row1()], muts: vec![m(1, None, &[(0, 11)], &[]), m(1, None, &[], &[RefOp::Set(1, 1), RefOp::Add(0, vec![2])]), m(1, Some(2), &[(0, 12)], &[RefOp::Clear(0)])] }),
         ("3-two-rows", Scen { rows: two_rows, muts: vec![m(1, None, &[(0, 11)], &[]), m(2, None, &[(0, 22)], &[RefOp::Set(1, 0)]), m(1, None, &[(1, 33)], &[RefOp::Set(1, 2), RefOp::Add(2, vec![2])])] }),
+        ("3-refused-between-accepted", Scen { rows: vec![row1()], muts: vec![m(1, None, &[(0, 11)], &[]), m(1, Some(3), &[(1, 22)], &[RefOp::Set(1, 1)]), m(1, None, &[(3, 33)], &[RefOp::Add(0, vec![2])])] }),
+        ("3-create-update-delete", Scen { rows: vec![row1()], muts: vec![mk(11, None, &[(0, 5)], &[RefOp::Add(0, vec![0])]), m(11, None, &[(1, 22)], &[RefOp::Set(1, 1)]), md(11)] }),
     ]
 }
+/// the witness of the rowid take-over: R1 . R2 V2 W2 . R3 V3 W3 . V1 W1
+fn reuse_sigma() -> Vec<Ev> { vec![Ev::R(0), Ev::R(1), Ev::V(1), Ev::W(1), Ev::R(2), Ev::V(2), Ev::W(2), Ev::V(0), Ev::W(0)] }
 
 fn gen_refop(rng: &mut Rng, used: &mut Vec<u64>, prefer: Option<u64>) -> Option<RefOp> {
     let l = rng.below(3);
@@ -506,25 +602,38 @@ fn gen_scen(rng: &mut Rng, n: usize) -> Scen {
         for l in [0u64, 2] { for t in 0..NTAGS { if rng.chance(1, 3) { edges.push((l, t)); } } }
         if rng.chance(1, 2) { edges.push((1, rng.below(NTAGS))); }
         // given values differ from the defaults (70, 90, "s30"); None = nullable absent / default stored
-        RowInit { room: if rng.chance(1, 4) { None } else { Some(1 + rng.below(2)) },
+        RowInit { room: match rng.below(8) { 0 | 1 => None, 2 => Some(2), _ => Some(1) },
                   fields: (0..NF).map(|_| if rng.chance(2, 3) { Some(rng.range(1, 9)) } else { None }).collect(), edges }
     }).collect();
+    let mut created: Vec<u64> = vec![];
     let muts: Vec<Mut> = (0..n).map(|i| {
-        let row = if rng.chance(1, 40) { UNKNOWN_ROW } else { 1 + rng.below(nrows as u64) };
+        let mut targets: Vec<u64> = (1..=nrows as u64).collect();
+        targets.extend(created.iter().cloned());
+        let row = if rng.chance(1, 40) { UNKNOWN_ROW } else { *rng.pick(&targets) };
+        let kind = match rng.below(20) { 0 | 1 => Kind::Delete, 2 | 3 => Kind::Create, _ => Kind::Update };
+        if kind == Kind::Delete { return md(row); }
         let mut assign = vec![];
         for f in 0..NF as u64 { if rng.chance(1, 4) { assign.push((f, 10 * (i as i64 + 1) + f as i64)); } }
         let mut used = vec![];
         let mut refs = vec![];
-        let prefer = rows.get(row as usize - 1).and_then(|r| r.edges.first().map(|e| e.1));
+        let prefer = rows.get((row as usize).wrapping_sub(1)).and_then(|r| r.edges.first().map(|e| e.1));
         for _ in 0..rng.below(3) { if let Some(r) = gen_refop(rng, &mut used, prefer) { refs.push(r); } }
+        if kind == Kind::Create {
+            let id = 11 + i as u64;
+            created.push(id);
+            refs.retain(|r| !matches!(r, RefOp::Clear(_)));
+            return Mut { kind, row: id, room: match rng.below(4) { 0 => None, 1 => Some(2), _ => Some(1) }, assign, refs };
+        }
         if assign.is_empty() && refs.is_empty() && !rng.chance(1, 6) { assign.push((rng.below(NF as u64), 10 * (i as i64 + 1))); }
-        // a row that is in a room keeps a room; rows outside rooms are not moved into one here
-        let room = if rows.get(row as usize - 1).map(|r| r.room.is_some()).unwrap_or(false) && rng.chance(1, 5) { Some(1 + rng.below(2)) } else { None };
-        Mut { row, room, assign, refs }
+        // a row that is in a room keeps a room; rows outside rooms are not moved into one here.
+        // room 3 (the caller is no member) and room 4 (unknown) make the validation refuse
+        let in_room = row > 10 || rows.get((row as usize).wrapping_sub(1)).map(|r| r.room.is_some()).unwrap_or(false);
+        let room = if in_room && rng.chance(1, 4) { Some(*rng.pick(&[1, 2, 2, 3, 4])) } else { None };
+        Mut { kind, row, room, assign, refs }
     }).collect();
     Scen { rows, muts }
 }
-/// the same scenario outside rooms (for the runs through the real service); None if a mutation moves the row
+/// the same scenario outside rooms (for the runs through the real service); None if a mutation names a room
 fn without_rooms(s: &Scen) -> Option<Scen> {
     if s.muts.iter().any(|m| m.room.is_some()) { return None; }
     let mut t = s.clone();
@@ -569,7 +678,40 @@ fn observe_stream(dir: &PathBuf) -> serde_json::Value {
     res
 }
 
-/// the real service, strictly sequential callers: every mutation is awaited (`mutate_raw`) before the next
+/// what MutationParser::propagate_room does with a sub entity given by id, and what the pipeline
+/// then does with it (observation only; basis of requests/C16-fix-2.diff)
+fn observe_propagate_room(env: &mut Env) -> serde_json::Value {
+    env.reset(&Scen { rows: vec![row1()], muts: vec![] });
+    // a tag in room 1
+    let mut p = Parameters::default();
+    p.add("room", base64_encode(&uid_of(1))).unwrap();
+    let tag = env.mutate_now("mutate { ns.Tag { room_id:$room n: 9 } }", p).mutate_entities[0].node_to_mutate.id;
+    let text = "mutate { ns.Row { id:$id room_id:$room f0:5 tags:[{id:$t}] } }";
+    let parser = env.parser(text);
+    let sub_has_room_field = match &parser.mutations[0].fields.get("tags").unwrap().field_value {
+        MutationFieldValue::Array(subs) => subs[0].fields.contains_key("room_id"),
+        _ => false,
+    };
+    let mut p = Parameters::default();
+    p.add("id", base64_encode(&id_of(&env.ids, 1))).unwrap();
+    p.add("room", base64_encode(&uid_of(2))).unwrap();
+    p.add("t", base64_encode(&tag)).unwrap();
+    verif_clock::set(BASE + 1000);
+    let mq = env.mutate_now(text, p);
+    verif_clock::clear();
+    let sub = &mq.mutate_entities[0].sub_nodes.get("tags").unwrap()[0].node_to_mutate;
+    let tag_short = env.dm.get_entity("ns.Tag").unwrap().short_name.clone();
+    let tag_room = Node::get_with_entity(&tag, &tag_short, &env.rconn).unwrap().unwrap().room_id;
+    let row_room = Node::get_with_entity(&id_of(&env.ids, 1), &env.shorts.row, &env.rconn).unwrap().unwrap().room_id;
+    json!({"request": text,
+           "sub_entity_given_by_id_received_the_parent_room_id_field": sub_has_room_field,
+           "sub_entity_room_computed_by_the_reader": (1..=4).find(|k| sub.room_id == Some(uid_of(*k))),
+           "sub_entity_node_to_write": sub.node.is_some(),
+           "parent_room_after": (1..=4).find(|k| row_room == Some(uid_of(*k))),
+           "referenced_row_room_after": (1..=4).find(|k| tag_room == Some(uid_of(*k)))})
+}
+
+/// the real service, strictly sequential callers: every request is awaited before the next
 struct Svc { rt: tokio::runtime::Runtime, app: GraphDatabaseService, shorts: Shorts }
 impl Svc {
     fn start(dir: &PathBuf) -> Svc {
@@ -585,7 +727,7 @@ impl Svc {
         });
         Svc { rt, app, shorts }
     }
-    /// acknowledgements ++ final state after awaiting the mutations one by one in the order pi
+    /// acknowledgements ++ final state after awaiting the requests one by one in the order pi
     fn exec(&self, s: &Scen, pi: &[usize]) -> Vec<i64> {
         let app = self.app.clone();
         let shorts = self.shorts.clone();
@@ -598,24 +740,29 @@ impl Svc {
                 let mq = app.mutate_raw(&format!("mutate {{ ns.Tag {{ n: {} }} }}", t), None).await.unwrap();
                 tags.push(mq.mutate_entities[0].node_to_mutate.id);
             }
-            let mut rows = vec![];
-            for r in &s.rows {
-                let (text, params) = creation_text(r, &tags);
+            let mut ids: Ids = vec![];
+            for (k, r) in s.rows.iter().enumerate() {
+                let (text, params) = init_text(r, &tags);
                 let mq = app.mutate_raw(&text, Some(params)).await.unwrap();
-                rows.push(mq.mutate_entities[0].node_to_mutate.id);
+                ids.push((k as u64 + 1, mq.mutate_entities[0].node_to_mutate.id));
             }
             let mut acks = vec![0i64; s.muts.len()];
             for i in pi {
                 verif_clock::set(BASE + mdate_of(i));
-                let (text, params) = mutation_text(&s.muts[i], &rows, &tags);
-                match app.mutate_raw(&text, Some(params)).await {
-                    Ok(_) => acks[i] = 1,
-                    Err(DbError::UnknownEntity(_, _)) => {}
-                    Err(e) => panic!("service mutation: {:?}", e),
+                let m = &s.muts[i];
+                let (text, params) = request_text(m, &ids, &tags);
+                if m.kind == Kind::Delete {
+                    match app.delete(&text, Some(params)).await { Ok(_) => acks[i] = 1, Err(e) => panic!("service deletion: {:?}", e) }
+                } else {
+                    match app.mutate_raw(&text, Some(params)).await {
+                        Ok(mq) => { acks[i] = 1; if m.kind == Kind::Create { ids.push((m.row, mq.mutate_entities[0].node_to_mutate.id)); } }
+                        Err(DbError::UnknownEntity(_, _)) => {}
+                        Err(e) => panic!("service mutation: {:?}", e),
+                    }
                 }
             }
             let (tx, rx) = tokio::sync::oneshot::channel();
-            app.db.reader.send_async(Box::new(move |conn| { let _ = tx.send(dump_conn(conn, &shorts, &rows, &tags).0); })).await.unwrap();
+            app.db.reader.send_async(Box::new(move |conn| { let _ = tx.send(dump_conn(conn, &shorts, &ids, &tags).0); })).await.unwrap();
             let mut out = acks;
             out.extend(rx.await.unwrap());
             out
@@ -638,19 +785,22 @@ fn main() {
     out.push(Case { kind: "stream-observation".into(), coq: "CNote".into(), obs: vec![], meta: stream });
 
     let mut rn = Runner { env: Env::new(&dir.join("db")), svc: Svc::start(&dir.join("svc_seq")), serial_cache: HashMap::new(),
-                          n_serializable: 0, n_not: 0, n_overlap: 0, n_sequential: 0 };
+                          n_serializable: 0, n_not: 0, n_overlap: 0, n_sequential: 0, n_refused: 0, n_with_create_or_delete: 0 };
     let sched2 = all_schedules(2);
     let sched3 = all_schedules(3);
     let orders = |n: usize| perms(&(0..n).collect::<Vec<_>>());
 
-    // 1. the witnesses of the known findings first: class 1 with the schedule R1 R2 V1 W1 V2 W2,
-    //    class 2 with a strictly sequential schedule
+    // 1. the witnesses of the known findings first: class 1 with the schedule R1 R2 V1 W1 V2 W2 and
+    //    with the rowid take-over, class 2 with a strictly sequential schedule
     let lost = vec![Ev::R(0), Ev::R(1), Ev::V(0), Ev::W(0), Ev::V(1), Ev::W(1)];
     for (name, s) in directed().iter().take(3) { let c = rn.case(&format!("witness:{}", name), s, &lost, false); out.push(c); }
+    { let d = directed3(); let (name, s) = &d[0]; let c = rn.case(&format!("witness:{}", name), s, &reuse_sigma(), false); out.push(c); }
     { let d = directed(); let (name, s) = &d[3]; let c = rn.case(&format!("witness:{}", name), s, &serial_sched(&[0, 1]), false); out.push(c); }
+    let prop = observe_propagate_room(&mut rn.env);
+    out.push(Case { kind: "propagate-room-observation".into(), coq: "CNote".into(), obs: vec![], meta: prop });
 
     // 2. strictly sequential callers (every order), on the phases and through the real service
-    //    with awaited mutate_raw: this is where the theorem says the property holds
+    //    with awaited requests: this is where the theorem says the property holds
     for (name, s) in directed().into_iter().chain(directed3()) {
         for pi in orders(s.muts.len()) {
             let c = rn.case(&format!("sequential:{}", name), &s, &serial_sched(&pi), false); out.push(c);
@@ -666,7 +816,7 @@ fn main() {
         if tier_thorough() {
             for (k, sg) in sched3.iter().enumerate() { let c = rn.case(&format!("all3:{}", name), &s, sg, k % 2 == 1); out.push(c); }
         } else {
-            for k in 0..40 { let sg = rng.pick(&sched3).clone(); let c = rn.case(&format!("sample3:{}", name), &s, &sg, k % 2 == 1); out.push(c); }
+            for k in 0..30 { let sg = rng.pick(&sched3).clone(); let c = rn.case(&format!("sample3:{}", name), &s, &sg, k % 2 == 1); out.push(c); }
         }
     }
     // 5. random scenarios: every sequential order (phases; through the service when no room is
@@ -691,10 +841,11 @@ fn main() {
         }
     }
     eprintln!("c16: total {:?}", t0.elapsed());
-    eprintln!("c16: {} cases; schedules of 2: {}, of 3: {}; overlapping windows: {}; final state equals a serial outcome: {}, does not: {}; {:?}",
-        out.n, sched2.len(), sched3.len(), rn.n_overlap, rn.n_serializable, rn.n_not, rn.env.stats);
+    eprintln!("c16: {} cases; schedules of 2: {}, of 3: {}; overlapping windows: {}; sequential {}; with a refused mutation {}; with create/delete {}; final state equals a serial outcome: {}, does not: {}; {:?}",
+        out.n, sched2.len(), sched3.len(), rn.n_overlap, rn.n_sequential, rn.n_refused, rn.n_with_create_or_delete, rn.n_serializable, rn.n_not, rn.env.stats);
     out.push(Case { kind: "generator-statistics".into(), coq: "CNote".into(), obs: vec![],
         meta: json!({"schedules_of_2": sched2.len(), "schedules_of_3": sched3.len(), "cases_with_overlapping_windows": rn.n_overlap, "strictly_sequential_cases": rn.n_sequential,
+                     "cases_with_a_mutation_refused_by_validation": rn.n_refused, "cases_with_creation_or_deletion": rn.n_with_create_or_delete,
                      "final_equals_a_serial_outcome": rn.n_serializable, "final_equals_no_serial_outcome": rn.n_not,
                      "final_rows_with_invalid_signature": rn.env.stats.get("final_row_signature_invalid").copied().unwrap_or(0)}) });
     drop(rn);
